@@ -107,7 +107,23 @@ func run(r *ev.Run, l layout) {
 		opts = append(opts, snowflake.NodeAtLowest())
 	}
 	rot := int(l.nodeBits) % len(opts)
-	snowflake.Setup(append(append([]snowflake.Option{}, opts[rot:]...), opts[:rot]...)...)
+	ordered := append(append([]snowflake.Option{}, opts[rot:]...), opts[:rot]...)
+	// the configuration is reached in stages, one Setup call per option, and the codec is USED between
+	// the stages (under the defaults and under every intermediate layout): whatever an earlier layout
+	// left behind must not show once the final one is in force
+	use := func() {
+		for _, id := range []int64{0, 1, 0x7fffffff, 88452840107827209, 1<<62 + 12345} {
+			_, _, _ = snowflake.IDFields(id)
+			_, _, _ = snowflake.IDParse(id)
+			_, _ = snowflake.FromChStyle(snowflake.CnStyle(id))
+			_, _ = snowflake.TimeIDRange(time.UnixMilli(1700000000000))
+		}
+	}
+	use()
+	for _, o := range ordered {
+		snowflake.Setup(o)
+		use()
+	}
 	if e, b, lo := snowflake.VerifConfig(); e != l.epoch || b != l.nodeBits || lo != l.lowest {
 		r.Violate(ev.Violation{Signature: "setup: the options do not establish the requested layout", Scenario: "setup/" + l.String(),
 			What: fmt.Sprintf("Setup for %s established epoch=%d nodeBits=%d nodeAtLowest=%v", l.String(), e, b, lo)})
